@@ -15,7 +15,7 @@ def prop(pid):
 
 
 def std(ctx, pid, *, mc, harness_cmd, trace_module, nrand, harness_opts=(), replay=None, rule, assumptions,
-        trace_consts=None, nontrivial=None, extra_cov=None, race=False, chunk_events=4000, exhaustive=False):
+        trace_consts=None, nontrivial=None, extra_cov=None, race=False, chunk_events=4000, exhaustive=False, extra=None):
     """The standard pipeline. `mc` is a list of dicts(name, module, consts, invariants, properties, export(bool), ...)."""
     hbin = V.build_harness(ctx, race=race)
     opts = []
@@ -50,6 +50,14 @@ def std(ctx, pid, *, mc, harness_cmd, trace_module, nrand, harness_opts=(), repl
                rejected_scenarios=len(bad))
     if extra_cov:
         cov.update(extra_cov)
+    if extra and not replay:
+        v2, c2 = extra()
+        verdict.violations += v2.violations
+        verdict.total_violating += v2.total_violating
+        verdict.unreproduced += v2.unreproduced
+        cov.update(c2)
+        cov["traces_validated_against_impl"] += c2.get("system_scenarios", 0) - c2.get("system_rejected", 0)
+        cov["evaluations"] += c2.get("system_scenarios", 0)
     return V.finish(ctx, pid, verdict, cov, assumptions)
 
 
@@ -248,6 +256,10 @@ def c01(ctx, replay):
 
 @prop("C08")
 def c08(ctx, replay):
+    if replay and json.loads(open(replay).readline())["in"].get("kind") == "cmd":
+        verdict, cov = system_stage(ctx, "C08", replay)
+        cov.update(traces_validated_against_impl=cov["system_scenarios"] - cov["system_rejected"], evaluations=cov["system_scenarios"], rule=cov["system_rule"])
+        return V.finish(ctx, "C08", verdict, cov, [])
     inv = ["KeyInjective", "Partition", "TimeOrderInStream", "LimitHonoured"]
     mcs = [dict(name="streams", module="MC_Streams", consts=dict(MaxRec=T(ctx, 3, 4), Pools=V.tla_str(T(ctx, "quick", "full")) if ctx.tier == "quick" else V.tla_str("quick")), invariants=inv)]
     if ctx.tier != "quick":
@@ -265,7 +277,11 @@ def c08(ctx, replay):
                     "entry in the stream of exactly its labels, time order inside a stream) and the limit rule; non-trivial = distinct "
                     "cases with a stage or a limit",
                assumptions=["which records with the timestamp of the cut are returned, the order of streams and of equal timestamps "
-                            "inside a stream are left open", "strconv.Quote is modelled as escaping of quote and backslash only (step 1)"])
+                            "inside a stream are left open", "strconv.Quote is modelled as escaping of quote and backslash only (step 1)",
+                            "system stage: distinct timestamps over the whole inventory"],
+               # the limit over the REAL storage: 3-7 containers with interleaved frames through the plugin's own command,
+               # the first `limit` entries of the merged stream are printed (System!Printed)
+               extra=lambda: system_stage(ctx, "C08", model=False, gen_opts=["focus=limit"], nrand=T(ctx, 400, 6000), chunk_events=T(ctx, 125, 1500)))
 
 
 @prop("C19")
@@ -478,7 +494,7 @@ def std_probe(ctx, pid, *, mc, mode, trace_module, nrand, replay, rule, assumpti
     return V.finish(ctx, pid, verdict, cov, assumptions)
 
 
-def system_stage(ctx, pid, replay=None):
+def system_stage(ctx, pid, replay=None, model=True, gen_opts=(), nrand=None, chunk_events=8000):
     """The composed system (spec/System.tla) through the plugin's own command line: rootCmd over a fake Docker CLI.
     Returns (verdict, coverage-dict). Cases: MC_System's plus seeded random ones, completed (query text) by the harness."""
     inv = ["WellFormed", "FromSelectedInWindow", "InTimeOrderOnce", "LimitIsPrefix", "MergeCommutes"]
@@ -489,12 +505,18 @@ def system_stage(ctx, pid, replay=None):
     else:
         hbin = V.build_harness(ctx)
         mcases = ctx.path("cases-system-model.ndjson")
-        V.model_check(ctx, "system", "MC_System", dict(Pools=V.tla_str(T(ctx, "quick", "full"))), invariants=inv, cases_file=mcases, timeout=5400)
+        if model:
+            V.model_check(ctx, "system", "MC_System", dict(Pools=V.tla_str(T(ctx, "quick", "full"))), invariants=inv, cases_file=mcases, timeout=5400)
+        else:
+            open(mcases, "w").close()
         ncases = sum(1 for _ in open(mcases))
         cases = ctx.path("cases-system.ndjson")
-        V.run_harness(ctx, hbin, ["cmdgen", "-cases", mcases, "-out", cases, "-rand", T(ctx, 600, 8000), "-seed", ctx.seed])
+        gopts = []
+        for o in gen_opts:
+            gopts += ["-opt", o]
+        V.run_harness(ctx, hbin, ["cmdgen", "-cases", mcases, "-out", cases, "-rand", nrand or T(ctx, 600, 8000), "-seed", ctx.seed] + gopts)
     run_probe(ctx, "cmd", cases, trace, 0)
-    bad, scns, nev = V.validate_trace(ctx, "Trace_System", trace, chunk_events=8000)
+    bad, scns, nev = V.validate_trace(ctx, "Trace_System", trace, chunk_events=chunk_events)
 
     def reexec(cf_, tf):
         run_probe(ctx, "cmd", cf_, tf, 0)
